@@ -76,7 +76,10 @@ def values_for(name):
     if typ == "FLOATPAIR":
         return [("geo", lambda: (37.386013, -122.082932)), ("zero", lambda: (0.0, -0.5))]
     if typ == "RECUR":
-        return [("daily", lambda: {"freq": "daily", "count": 3}), ("yearly", lambda: {"freq": "yearly", "bymonth": [3], "byday": "-1SU"})]
+        return [("daily", lambda: {"freq": "daily", "count": 3}), ("yearly", lambda: {"freq": "yearly", "bymonth": [3], "byday": "-1SU"}),
+                # scalars that are falsy (minute 0, second 0) next to lists: parts like any other
+                ("zero-scalars", lambda: {"freq": "daily", "byhour": 9, "byminute": 0, "bysecond": 0}),
+                ("zero-lists", lambda: {"freq": "hourly", "byminute": [0, 30], "bysecond": [0]})]
     if typ == "UTC-OFFSET":
         return [("+1h", lambda: timedelta(hours=1)), ("-5:30", lambda: -timedelta(hours=5, minutes=30)), ("+5:45:30", lambda: timedelta(hours=5, minutes=45, seconds=30))]
     if typ == "PERIOD":  # FREEBUSY
